@@ -2,6 +2,8 @@
 from . import conv as CV
 from . import modular
 from . import julian
+from . import shared
+from . import c11 as _c11
 
 
 def run(ctx, rep):
@@ -10,7 +12,12 @@ def run(ctx, rep):
         'under a normaliser of compatible period, alone as a canonical representative, or in day-to-day differences that are made '
         'continuous for every position of the 360->0 seam. Of the Julian Day arithmetic one structural clause is decided (R13.2: the '
         'Gregorian century correction and the day count use the same shifted year). The second-difference / 4-minute bounds are '
-        'numeric: not decided.')
+        'numeric: not decided. Included from C11: the `None` row of the rounding table (the seconds are handed through) and the 24 h wraps.')
     rep.trusted = ['rustc MIR', 'the compared angle moves < 1.2 deg/day']
     modular.check(ctx, rep, CV.get(ctx))
     julian.check(ctx, rep, 'R13.2')
+    # the property is stated for unrounded seconds: a converter that rounds, truncates or wraps the seconds in mode `None` (without
+    # the carry the rounding modes have) moves single days by up to a minute; and a wrap of the hour in the wrong place is a jump of a day
+    shared.include(ctx, rep, _c11.run, {'R11.1', 'R11.4'},
+                   keys=lambda key: key.count(':') >= 2 or key.startswith('None:'),
+                   why='unrounded seconds (mode None) are reported as computed; the 24 h wraps are where C11 says')
